@@ -365,7 +365,7 @@ def inproc_group(exe, reqs, timeout_ms=8000):
         payload = "".join(json.dumps({"id": r["id"], "args": r["args"], "stdin": r.get("stdin", b"").hex(), "timeout_ms": timeout_ms}) + "\n" for r in todo)
         try:
             p = subprocess.run([exe, "mlr-inproc"], input=payload.encode(), capture_output=True,
-                               timeout=60 + len(todo) * (timeout_ms / 1000.0 + 1), env=dict(os.environ, **SAFE_ENV), cwd=SANDBOX["dir"])
+                               timeout=60 + len(todo) * (timeout_ms / 1000.0 + 1), env=dict(os.environ, **SAFE_ENV, **({"TMPDIR": SANDBOX["dir"]} if SANDBOX["dir"] else {})), cwd=SANDBOX["dir"])
             out, err, rc = p.stdout, p.stderr, p.returncode
         except subprocess.TimeoutExpired as e:
             out, err, rc = e.stdout or b"", e.stderr or b"", 124
